@@ -233,6 +233,11 @@ pub fn handle(op: &str, req: &Value) -> Option<Value> {
                 let mut w = RaftWal::open(&wal_path).unwrap();
                 let vote = if pre["voted_for"].is_null() { None } else { Some(sid(&pre["voted_for"])) };
                 w.append(&RaftWalEntry::TermAndVote { term: pre["term"].as_u64().unwrap_or(1), voted_for: vote }).unwrap();
+                // the node's pre-log, as persist_log_entry would have written it
+                for (i, t) in pre["log_terms"].as_array().into_iter().flatten().enumerate() {
+                    let e = LogEntry::new(t.as_u64().unwrap_or(1), i as u64 + 1, Block::default());
+                    w.append(&RaftWalEntry::LogEntryFull { index: e.index, term: e.term, entry_data: bitcode::serialize(&e).unwrap() }).unwrap();
+                }
             }
             let mk = || {
                 let t: Arc<MemoryTransport> = Arc::new(MemoryTransport::new("n1".to_string()));
